@@ -94,6 +94,8 @@ def run(ctx):
     if quick:
         rng.shuffle(points)
         points = points[:260]
+    else:
+        points = points * 4          # every abort point under four random choices of the members' scan windows
     jobs = []
     for jid, (n, i, line, nrec, method) in enumerate(points):
         scans = [rng.choice(["*", "*", "1*", f"0-{nrec - 2}"]) for _ in range(n)]
@@ -158,7 +160,7 @@ def run(ctx):
     ctx.coverage.update({
         "evaluations": len(jobs) * 2, "distinct_nontrivial": len({repr(j["meta"]) for j in jobs}),
         "rule": "abort points (member index i of n in 1..3, line 0..nrec-1, nrec in {3,5,6}) x {collect_paths, fast_forward_paths, next_paths, collect_by_line, next_by_line} "
-                "(quick: 260 random points of the 840; thorough: all), random scan windows for the members; abort = 'eq(line_number(), L) -> @x = int(\"zz\")' under validation-mode raise; then one "
+                "(quick: 260 random points of the 840; thorough: all, each under four random choices of scan windows), random scan windows for the members; abort = 'eq(line_number(), L) -> @x = int(\"zz\")' under validation-mode raise; then one "
                 "further collect_paths run of another group on the same instance. Non-trivial = every distinct abort point.",
         "samples": [case(0)], "exhaustive": not quick, "abort_points": len(jobs),
         "traces_validated_against_impl": len(idx) - len(agree_bad), "spec_failures": len(spec_bad), "on_last_scanned_line": len(d13),
